@@ -307,7 +307,31 @@ func checkC03(w *World, r *Report) {
 		// CodeFn → one progs.Update ; Update → Pop, append(_, i), Push
 		fd, p := w.FuncDecl(codeFn)
 		update := w.Method("xpath", "ProgStack", "Update")
-		r.Check(len(allCallsTo(p, fd.Body, update)) == 1 && len(callsIn(p, fd.Body)) <= 2, "R03.5", "ProgBuilder.CodeFn", fd.Pos(),
+		_ = p
+		okCodeFn := false
+		if cf := w.SSAFunc(codeFn); cf != nil {
+			// one instruction is made and handed, once, to something that appends exactly it
+			appends, others := 0, 0
+			for _, b := range cf.Blocks {
+				for _, in := range b.Instrs {
+					c, isC := in.(*ssa.Call)
+					if !isC {
+						continue
+					}
+					g := c.Call.StaticCallee()
+					switch {
+					case g != nil && g.Blocks != nil && c03UpdateAppendsOne(w, g):
+						appends++
+					case g != nil && g.Pkg == cf.Pkg && g.Signature.Results().Len() == 1 && strings.HasSuffix(g.Signature.Results().At(0).Type().String(), "xpath.Inst"):
+						// the constructor of the instruction
+					default:
+						others++
+					}
+				}
+			}
+			okCodeFn = appends == 1 && others == 0
+		}
+		r.Check(okCodeFn, "R03.5", "ProgBuilder.CodeFn", fd.Pos(),
 			"one Update call", "CodeFn must append exactly one instruction (one ProgStack.Update call and one constructor)")
 		ufd, up := w.FuncDecl(update)
 		_ = up
@@ -446,6 +470,14 @@ func c03UpdateAppendsOne(w *World, f *ssa.Function) bool {
 	if f == nil || len(f.Params) != 2 || len(ssaLoops(f)) > 0 {
 		return false
 	}
+	// the stack: the receiver itself (ProgStack.Update), or a field of the receiver (a method of the builder)
+	isStack := func(v ssa.Value) bool {
+		if v == ssa.Value(f.Params[0]) {
+			return true
+		}
+		fa, ok := v.(*ssa.FieldAddr)
+		return ok && fa.X == ssa.Value(f.Params[0])
+	}
 	pop, push := w.SSAFunc(w.Method("xpath", "ProgStack", "Pop")), w.SSAFunc(w.Method("xpath", "ProgStack", "Push"))
 	var appends, pops, pushes []*ssa.Call
 	var stores []*ssa.Store
@@ -485,8 +517,12 @@ func c03UpdateAppendsOne(w *World, f *ssa.Function) bool {
 	base := ap.Call.Args[0]
 	// pop; push(append(popped, i))
 	if len(pops) == 1 && len(pushes) == 1 && len(stores) == 0 {
-		return base == ssa.Value(pops[0]) && len(pushes[0].Call.Args) == 2 && pushes[0].Call.Args[1] == ssa.Value(ap) &&
-			pops[0].Call.Args[0] == ssa.Value(f.Params[0]) && pushes[0].Call.Args[0] == ssa.Value(f.Params[0])
+		sameStack := isStack(pops[0].Call.Args[0]) && isStack(pushes[0].Call.Args[0])
+		if pfa, ok := pops[0].Call.Args[0].(*ssa.FieldAddr); ok {
+			qfa, ok2 := pushes[0].Call.Args[0].(*ssa.FieldAddr)
+			sameStack = sameStack && ok2 && pfa.Field == qfa.Field
+		}
+		return base == ssa.Value(pops[0]) && len(pushes[0].Call.Args) == 2 && pushes[0].Call.Args[1] == ssa.Value(ap) && sameStack
 	}
 	// stack[len-1] = append(stack[len-1], i)
 	if len(pops) == 0 && len(pushes) == 0 && len(stores) == 1 && stores[0].Val == ssa.Value(ap) {
